@@ -275,8 +275,67 @@ def x_flaky(ctx, case):
 SUBCHECKS["flaky"] = x_flaky
 
 
+def x_docleanups(ctx, case):
+    """The inherited unittest entry point: a test that calls self.doCleanups() itself (to release something before
+    its last assertions) has every clean-up registered so far run right there, once each, last registered first, with
+    the arguments it was registered with; what is registered afterwards runs after tearDown as usual; nothing is left
+    registered, and a second run of the instance does the same."""
+    import testtools
+    from twisted.internet import defer
+    ran = []
+    runner = programs.runner_factory_for(case.get("runner"))
+
+    class T(testtools.TestCase):
+        if runner is not None:
+            run_tests_with = runner
+
+        def setUp(self):
+            super().setUp()
+            for i in range(case["before"]):
+                self.addCleanup(ran.append, "early%d" % i) if i % 2 else self.addCleanup(lambda v=None, i=i: ran.append("early%d" % i), v=i)
+
+        def test(self):
+            ran.append("body")
+            self.doCleanups()
+            ran.append("after-doCleanups")
+            for i in range(case["after"]):
+                self.addCleanup(ran.append, "late%d" % i)
+
+        def tearDown(self):
+            ran.append("tearDown")
+            super().tearDown()
+    t = T("test")
+    want = (["body"] + ["early%d" % i for i in reversed(range(case["before"]))] + ["after-doCleanups", "tearDown"]
+            + ["late%d" % i for i in reversed(range(case["after"]))])
+    for attempt in range(2):
+        del ran[:]
+        log = recorders.Log()
+        try:
+            t.run(recorders.ExtRecorder(log))
+            raised = None
+        except Exception as e:  # noqa
+            raised = e
+        outs = [n for n in log.names() if n in recorders.OUTCOMES]
+        ctx.check(raised is None and ran == want and outs == ["addSuccess"] and t._cleanups == [],
+                  "cleanup.each-exactly-once",
+                  lambda: {"attempt": attempt, "ran": list(ran), "want": want, "outcomes": outs, "raised": repr(raised),
+                           "left registered": repr(t._cleanups), "case": case})
+    return True
+
+
+SUBCHECKS["docleanups"] = x_docleanups
+
+
 def run(ctx):
     rng = ctx.rng
+    n = 0
+    for before in (1, 2, 3):
+        for after in (0, 1, 2):
+            for runner in (None, "sync", "async"):
+                if ctx.mine():
+                    n += 1
+                    ctx.execute("docleanups", {"before": before, "after": after, "runner": runner})
+    ctx.note_space("a test calling the inherited doCleanups() itself: 1-3 clean-ups before x 0-2 after x 3 runners, twice", n)
     n = 0
     from . import c14
     for prog in c14.late_cleanup_programs():
